@@ -199,6 +199,7 @@ func pinnedC13() []*pgen.Case {
 		mk("pin_selfref_field", "// goverter:converter\ntype Converter interface {\n\tM(source In) Out\n}\ntype T []T\ntype In struct{ V T }\ntype Out struct{ V T }\n"),
 		// a named struct type that occurs several times with identical source and target type under skipCopySameType
 		mk("pin_skipcopy_twice", "// goverter:converter\n// goverter:skipCopySameType\ntype Converter interface {\n\tM(source In) Out\n\tN(source []In) []Out\n}\ntype Inner struct{ X int; L []int }\ntype In struct{ A Inner; B Inner; C *Inner; D []Inner }\ntype Out struct{ A Inner; B Inner; C *Inner; D []Inner }\n"),
+		mk("pin_empty_type_block", "// goverter:converter\ntype ()\n\n// goverter:variables\nvar ()\n\ntype In struct{ V int }\n"),
 		mk("pin_chan_temp", "// goverter:converter\n// goverter:useZeroValueOnPointerInconsistency\n// goverter:skipCopySameType\ntype Converter interface {\n\tM(source *chan int) chan int\n}\n"),
 	}
 }
